@@ -1414,14 +1414,23 @@ def check_c14(tier, seed):
     lines, violations, known_f, other = verdict("C14", "io", fails, calls, group, lambda c: {"C14"})
     if model["violated"] and not violations:
         raise MachineryError("TLC reports Inv_C14 violated on the model but the implementation conforms: the specification is wrong")
+    # the same property along HISTORIES (spec/System.tla): arbitrary live converters written, changed, read back
+    import checks_world
+    sysr = checks_world.system_part("C14", tier, seed)
+    lines += sysr["lines"]
+    violations += sysr["violations"]
+    known_f = list(known_f) + [k["id"] for k in sysr["known"]]
     per = {}
     for m in calls.meta:
         per[m["fmt"]] = per.get(m["fmt"], 0) + 1
     hazard = sum(1 for m in calls.meta if any(ch in json.dumps(m["records"], ensure_ascii=False) for ch in ("\\\\", "é", "\U0001d4b3")))
-    cov = {"states": model["distinct"], "transitions": model["generated"], "traces_validated_against_impl": len(calls.calls),
+    cov = {"states": model["distinct"] + sum(m["distinct"] for m in sysr["coverage"]["models"]),
+           "transitions": model["generated"] + sum(m["generated"] for m in sysr["coverage"]["models"]),
+           "traces_validated_against_impl": len(calls.calls) + sysr["coverage"]["traces"],
            "samples": [calls.meta[0], calls.meta[-1]], "evaluations": len(calls.calls), "distinct_nontrivial": hazard,
            "rule": "evaluations = write-then-read round trips through the real writers and readers; distinct_nontrivial = round trips whose converter contains a backslash or a non-ASCII character",
            "exhaustive": True, "models": [model], "calls_from_model": n_model, "per_format": per, "call_validation": stv,
+           "histories_with_files": sysr["coverage"],
            "other_clauses_failed": other, "known_findings": known_f,
            "explanation": "the specification decides the round trip at the level of what a file denotes; byte-level escaping is explored by the hazard-alphabet sweep, not proved"}
     return {"lines": lines, "violations": violations, "coverage": cov, "wall": time.time() - t0, "assumptions": ASSUME + [
